@@ -529,6 +529,140 @@ fn errprop(c: &Value) -> Value {
     r.unwrap_or_else(|e| json!({"status":"panic","problem":panic_msg(e)}))
 }
 
+/// C02: hostile variants of a text under several option sets; everything must return, and
+/// every accepted statement must survive Display / Debug / Clone / ==.
+fn exercise(d: &dyn sqlparser::dialect::Dialect, sql: &str, unescape: bool, trailing: bool, limit: Option<usize>) -> Result<u64, String> {
+    sqlparser::parser::verif_hooks::reset();
+    let r = std::panic::catch_unwind(std::panic::AssertUnwindSafe(|| {
+        let toks = sqlparser::tokenizer::Tokenizer::new(d, sql).with_unescape(unescape).tokenize();
+        if let Ok(ts) = &toks { for t in ts { let _ = t.to_string(); let _ = format!("{:?}", t); } }
+        match parse_opts(d, sql, unescape, trailing, limit) {
+            Ok(stmts) => {
+                for st in &stmts {
+                    let _ = st.to_string();
+                    let _ = format!("{:?}", st);
+                    let c = st.clone();
+                    if &c != st { panic!("clone is not equal to the original"); }
+                }
+            }
+            Err(e) => { let _ = e.to_string(); let _ = format!("{:?}", e); }
+        }
+    }));
+    let steps = sqlparser::parser::verif_hooks::steps();
+    r.map(|_| steps).map_err(panic_msg)
+}
+
+fn stress(c: &Value) -> Value {
+    let d = dialect_by_name(c["dialect"].as_str().unwrap());
+    let sql = c["sql"].as_str().unwrap();
+    let seed = c["seed"].as_u64().unwrap_or(1);
+    let n = c["mutants"].as_u64().unwrap_or(12);
+    let all_truncations = c["all_truncations"].as_bool().unwrap_or(false);
+    let chars: Vec<char> = sql.chars().collect();
+    let toks = tokenize_loc(d.as_ref(), sql, true).unwrap_or_default();
+    let offs = if toks.is_empty() { vec![0, chars.len()] } else { token_offsets(sql, &toks) };
+    let valid = offs.iter().all(|o| *o != usize::MAX && *o <= chars.len());
+    let mut rng = Rng::new(seed);
+    let subst = ["(", ")", ",", "'", "\"", "`", "[", "$$", "/*", "--", "\\", ";", "SELECT", "DIV", "NOT", "INTERVAL", "CASE", "::", ".", "@", "?", "{", "}", "ARRAY[", "U&'\\", "E'\\u", "0x", "1e", "\u{0}", "\u{a0}", "\u{1F600}", "FOR", "BY", "AS", "WITH"];
+    let mut variants: Vec<String> = vec![sql.to_string()];
+    if valid && toks.len() > 1 {
+        if all_truncations { for i in 1..toks.len() { variants.push(chars[..offs[i]].iter().collect()); } }
+        for _ in 0..n {
+            let i = rng.below(toks.len() as u64) as usize;
+            let (a, b) = (offs[i], offs[i + 1].min(chars.len()));
+            let pre: String = chars[..a].iter().collect();
+            let mid: String = chars[a..b].iter().collect();
+            let post: String = chars[b..].iter().collect();
+            variants.push(match rng.below(5) {
+                0 => pre.clone(),
+                1 => pre.clone() + &post,
+                2 => pre.clone() + &mid + " " + &mid + &post,
+                3 => pre.clone() + subst[rng.below(subst.len() as u64) as usize] + &post,
+                _ => { let j = rng.below(chars.len() as u64 + 1) as usize; chars[..j].iter().collect::<String>() + subst[rng.below(subst.len() as u64) as usize] + &chars[j..].iter().collect::<String>() }
+            });
+        }
+    }
+    let option_sets: [(bool, bool, Option<usize>); 6] = [(true, false, None), (false, true, None), (true, false, Some(0)), (true, true, Some(1)), (false, false, Some(2)), (true, false, Some(7))];
+    let (mut runs, mut max_ratio, mut worst) = (0u64, 0f64, String::new());
+    for v in &variants {
+        let len = v.chars().count().max(8) as f64;
+        for (k, (un, tc, lim)) in option_sets.iter().enumerate() {
+            if k > 0 && rng.below(3) != 0 { continue; }
+            runs += 1;
+            match exercise(d.as_ref(), v, *un, *tc, *lim) {
+                Ok(steps) => { let r = steps as f64 / len; if r > max_ratio { max_ratio = r; worst = v.clone(); } }
+                Err(msg) => return json!({"status":"panic","variant":v,"unescape":un,"trailing_commas":tc,"limit":lim,"panic":msg}),
+            }
+        }
+    }
+    json!({"status":"ok","runs":runs,"variants":variants.len(),"max_steps_per_char":max_ratio,"worst":worst})
+}
+
+/// C02/C03: nested inputs for growth ladders. Returns steps, outcome.
+fn nest_text(template: &str, n: usize) -> Option<String> {
+    let rep = |s: &str| s.repeat(n);
+    Some(match template {
+        "parens" => format!("SELECT {}1{}", rep("("), rep(")")),
+        "position" => format!("SELECT {}'a' IN 'b'{}", rep("POSITION("), rep(" IN 'c')").replacen(" IN 'c')", ")", 1)),
+        "func" => format!("SELECT {}1{}", rep("f("), rep(")")),
+        "position_fn" => format!("SELECT {}1{}", rep("POSITION("), rep(")")),
+        "paren_tuple_lambda" => format!("SELECT {}a, b{}", rep("f(("), rep("))")),
+        "typed_paren" => format!("SELECT {}1{}", rep("a("), rep(")")),
+        "interval_paren" => format!("SELECT {}1{}", rep("INTERVAL ("), rep(") DAY")),
+        "derived_join" => format!("SELECT * FROM {}a{}", rep("("), rep(" JOIN b ON 1)")),
+        "explain_paren" => format!("EXPLAIN {}SELECT 1{}", rep("("), rep(")")),
+        "case" => format!("SELECT {}1{}", rep("CASE WHEN a THEN "), rep(" END")),
+        "subquery" => format!("SELECT {}1{}", rep("(SELECT "), rep(")")),
+        "derived" => format!("SELECT * FROM {}t{}", rep("("), rep(")")),
+        "derived_select" => format!("SELECT * FROM {}t{}", rep("(SELECT * FROM "), rep(") AS x")),
+        "array" => format!("SELECT {}1{}", rep("ARRAY["), rep("]")),
+        "bracket" => format!("SELECT {}1{}", rep("["), rep("]")),
+        "not" => format!("SELECT {}x", rep("NOT ")),
+        "neg" => format!("SELECT {}x", rep("- ")),
+        "cast" => format!("SELECT {}1{}", rep("CAST("), rep(" AS INT)")),
+        "interval" => format!("SELECT {}'1' DAY", rep("INTERVAL ")),
+        "extract" => format!("SELECT {}d{}", rep("EXTRACT(YEAR FROM "), rep(")")),
+        "substring" => format!("SELECT {}'a'{}", rep("SUBSTRING("), rep(" FROM 1)")),
+        "trim" => format!("SELECT {}'a'{}", rep("TRIM("), rep(")")),
+        "ceil" => format!("SELECT {}1{}", rep("CEIL("), rep(")")),
+        "overlay" => format!("SELECT {}'a'{}", rep("OVERLAY("), rep(" PLACING 'b' FROM 1)")),
+        "exists" => format!("SELECT {}1{}", rep("EXISTS (SELECT "), rep(")")),
+        "struct" => format!("SELECT {}1{}", rep("STRUCT("), rep(")")),
+        "map" => format!("SELECT {}1{}", rep("MAP {'a': "), rep("}")),
+        "dict" => format!("SELECT {}1{}", rep("{'a': "), rep("}")),
+        "typed" => format!("SELECT {}x", rep("a ")),
+        "convert" => format!("SELECT {}1{}", rep("CONVERT("), rep(", INT)")),
+        "join_parens" => format!("SELECT * FROM {}a JOIN b ON 1{}", rep("("), rep(")")),
+        "in_list" => format!("SELECT {}1{}", rep("1 IN ("), rep(")")),
+        "tuple" => format!("SELECT {}1, 2{}", rep("("), rep(")")),
+        "between" => format!("SELECT {}1", rep("1 BETWEEN 2 AND ")),
+        "window" => format!("SELECT {}1{}", rep("sum(x) OVER (ORDER BY "), rep(")")),
+        "lambda" => format!("SELECT {}1{}", rep("f(x -> "), rep(")")),
+        "explain" => format!("{}SELECT 1", rep("EXPLAIN ")),
+        "datatype_array" => format!("SELECT CAST(x AS {}INT{})", rep("ARRAY<"), rep(">")),
+        "datatype_struct" => format!("SELECT CAST(x AS {}INT{})", rep("STRUCT<a "), rep(">")),
+        _ => return None,
+    })
+}
+
+fn ladder(c: &Value) -> Value {
+    let d = dialect_by_name(c["dialect"].as_str().unwrap());
+    let t = c["template"].as_str().unwrap();
+    let n = c["n"].as_u64().unwrap() as usize;
+    let limit = c["limit"].as_u64().map(|x| x as usize);
+    let sql = match nest_text(t, n) { Some(s) => s, None => return json!({"status":"unknown-template"}) };
+    sqlparser::parser::verif_hooks::reset();
+    let t0 = std::time::Instant::now();
+    let r = std::panic::catch_unwind(std::panic::AssertUnwindSafe(|| parse_opts(d.as_ref(), &sql, true, false, limit)));
+    let steps = sqlparser::parser::verif_hooks::steps();
+    let ms = t0.elapsed().as_millis() as u64;
+    match r {
+        Ok(Ok(_)) => json!({"status":"ok","steps":steps,"ms":ms,"len":sql.len()}),
+        Ok(Err(e)) => json!({"status": if matches!(e, sqlparser::parser::ParserError::RecursionLimitExceeded) {"limit"} else {"error"}, "steps":steps,"ms":ms,"len":sql.len(),"error":e.to_string()}),
+        Err(e) => json!({"status":"panic","panic":panic_msg(e),"steps":steps}),
+    }
+}
+
 fn lex(c: &Value) -> Value {
     let d = dialect_by_name(c["dialect"].as_str().unwrap());
     lex_outcome(d.as_ref(), c["sql"].as_str().unwrap(), c["unescape"].as_bool().unwrap_or(true))
@@ -546,6 +680,8 @@ fn main() {
         "literal" => for_each_case(literal),
         "rawmode" => for_each_case(rawmode),
         "errprop" => for_each_case(errprop),
+        "stress" => for_each_case(stress),
+        "ladder" => for_each_case(ladder),
         "wsvariant" => for_each_case(wsvariant),
         _ => {
             eprintln!("usage: drive make_word < cases.jsonl");
